@@ -57,3 +57,27 @@ try:
     show("F8", ("short_name after mutating the returned list:", t.short_name))  # 'x'
 finally:
     shutil.rmtree(d)
+
+
+def f14_f15_twin_files() -> None:
+    """F14 (C13.R5) / F15 (C10.R7): two files of one directory that spell the same name and version.  Before the fixes:
+    read_namespace -> AssertionError; read_files dropped the second requested file silently."""
+    import tempfile
+    from pathlib import Path
+
+    import pydsdl
+
+    with tempfile.TemporaryDirectory() as d:
+        ns = Path(d) / "ns"
+        ns.mkdir()
+        (ns / "Foo.1.0.dsdl").write_text("uint8 a\n@sealed\n")
+        (ns / "Foo.1.0.uavcan").write_text("uint16 b\n@sealed\n")
+        for label, f in (("read_namespace", lambda: pydsdl.read_namespace(ns)), ("read_files", lambda: pydsdl.read_files([ns / "Foo.1.0.dsdl", ns / "Foo.1.0.uavcan"], [ns]))):
+            try:
+                r = f()
+                print("F14/F15", label, "->", [str(t) for t in (r if isinstance(r, list) else r[0])])
+            except Exception as ex:  # noqa
+                print("F14/F15", label, "->", type(ex).__name__)
+
+
+f14_f15_twin_files()
